@@ -7,6 +7,7 @@ Monitors on the real entry points:
    argument and a deep digest of every dict / list argument before and after the call, return or raise,
    with read-only input arrays and option dictionaries reused across calls;
  * determinism: every deterministic call repeated once must give an identical result."""
+import functools
 import json
 import os
 import subprocess
@@ -85,6 +86,11 @@ def same_result(a, b):
 
 # ------------------------------------------------------------------------------------------
 # entry-point table: name -> builder(rng, shared) returning (func, args, kwargs, deterministic)
+
+def _sorted_range(v):
+    v.sort()
+    return float(v[-1] - v[0])
+
 
 def build_table():
     from emd import sift as S, spectra as SP, cycles as C, utils as U, _cycles_support as CS
@@ -177,6 +183,13 @@ def build_table():
         v[r.integers(0, len(lab), 3)] = np.nan
         return (C.get_cycle_stat, (ro(lab), ro(v)), dict(func=gens.pick(r, [np.max, np.nanmean, np.sum]), out=gens.pick(r, [None, 'samples'])), True)
     T['get_cycle_stat:nan_values'] = gcs_nan
+
+    def gcs_inplace(r, s):
+        # a reducer that rearranges the vector it is handed (legal: it is handed its own copy of the cycle's samples)
+        lab = gens.label_vector(r)
+        f = gens.pick(r, [functools.partial(np.median, overwrite_input=True), _sorted_range])
+        return (C.get_cycle_stat, (ro(lab), ro(r.standard_normal(len(lab)))), dict(func=f, out=gens.pick(r, [None, 'samples'])), True)
+    T['get_cycle_stat:inplace_reducer'] = gcs_inplace
 
     def bbp_nan(r, s):
         p = r.uniform(0, 2 * np.pi, 200)
